@@ -421,6 +421,105 @@ def driveC18 (args : List String) : String :=
     | none => "bad-op"
   | _ => "bad-op"
 
+/-! ### in-process stream scripts: subset-construction explorer over `InprocStream.step`.
+    Checker code: it uses the same `step` the theorems are about; script ops become `…Begin`
+    actions, then the state set is closed under the internal actions until none is enabled. -/
+
+namespace ISX
+open InprocStream
+
+def showRes : Res → String
+  | .ok => "ok" | .msg m => s!"msg:{m}" | .eof => "eof" | .status c => s!"status:{c}"
+  | .ctxErr .canceled => "ctxerr:canceled" | .ctxErr .deadline => "ctxerr:deadline"
+  | .plainErr => "plain"
+  | .md h => if h.isEmpty then "md:-" else "md:" ++ ",".intercalate (h.map toString)
+
+def showEv : Ev → String
+  | .ret .cs r => "cs:" ++ showRes r
+  | .ret .cr r => "cr:" ++ showRes r
+  | .ret .h r => "h:" ++ showRes r
+
+def sortStrs (xs : List String) : List String := (xs.toArray.qsort (· < ·)).toList
+
+/-- all quiescent (no internal action enabled) states reachable by internal actions, with the
+    events emitted on the way (as a sorted list) -/
+partial def closure (fuel : Nat) (frontier : List (St × List String)) (done : List (St × List String)) : List (St × List String) :=
+  match fuel, frontier with
+  | 0, _ => done ++ frontier
+  | _, [] => done
+  | fuel + 1, (s, evs) :: rest =>
+    let succs := internalActs.filterMap fun a => (step s a).map fun (s', es) => (s', evs ++ es.map showEv)
+    if succs.isEmpty then
+      let item := (s, sortStrs evs)
+      closure fuel rest (if done.contains item then done else item :: done)
+    else
+      let newOnes := succs.filter fun x => !(rest.contains x)
+      closure fuel (newOnes ++ rest) done
+
+def herrOf (s : String) : Option (Option HErr) :=
+  if s == "nil" then some none
+  else if s == "plain" then some (some .plain)
+  else if s == "ctx:canceled" then some (some (.ctx .canceled))
+  else if s == "ctx:deadline" then some (some (.ctx .deadline))
+  else if s.startsWith "status:" then ((s.drop 7).toString.toNat?).map fun c => some (.status c)
+  else none
+
+def actOf (actor op : String) (arg : String) : Option Act :=
+  match actor, op with
+  | "cs", "send" => arg.toNat?.map .cSendBegin
+  | "cs", "closesend" => some .cCloseSend
+  | "cr", "recv" => some .cRecvBegin
+  | "cr", "header" => some .cHeaderBegin
+  | "cr", "trailer" => some .cTrailer
+  | "h", "recv" => some .sRecvBegin
+  | "h", "send" => arg.toNat?.map .sSendBegin
+  | "h", "setheader" => arg.toNat?.map .sSetHeader
+  | "h", "sendheader" => arg.toNat?.map .sSendHeader
+  | "h", "settrailer" => arg.toNat?.map .sSetTrailer
+  | "h", "return" => (herrOf arg).map .sReturn
+  | "env", "cancel" => some (.cancel .canceled)
+  | "env", "expire" => some (.cancel .deadline)
+  | _, _ => none
+
+def runScript (kind : String) (ops : List String) : String :=
+  let respStream := kind == "sstream" || kind == "bidi"
+  let s0 := init Gen.capReq Gen.capResp respStream
+  let rec go (k : Nat) (states : List St) : List String → String
+    | [] => "accept"
+    | opStr :: rest =>
+      match opStr.splitOn "=>" with
+      | [lhs, obs] =>
+        let observed := sortStrs (if obs.isEmpty then [] else obs.splitOn ",")
+        let (actorOp, arg) := match lhs.splitOn ":" with
+          | [ao] => (ao, "")
+          | ao :: more => (ao, ":".intercalate more)
+          | [] => ("", "")
+        match actorOp.splitOn "." with
+        | [actor, op] =>
+          match actOf actor op arg with
+          | none => s!"bad-op@{k}"
+          | some a =>
+            let started := states.filterMap fun s => (step s a).map fun (s', es) => (s', es.map showEv)
+            let outs := closure 4000 started []
+            let matching := (outs.filter fun (_, evs) => evs == observed).map (·.1)
+            let dedup := matching.foldl (fun acc s => if acc.contains s then acc else s :: acc) []
+            if dedup.isEmpty then
+              let allowed := (outs.map (·.2)).foldl (fun acc e => if acc.contains e then acc else e :: acc) []
+              s!"reject@{k} op={lhs} observed=[{",".intercalate observed}] model-allows={allowed.map fun e => "[" ++ ",".intercalate e ++ "]"}"
+            else go (k + 1) dedup rest
+        | _ => s!"bad-op@{k}"
+      | _ => s!"bad-op@{k}"
+  go 0 [s0] ops
+
+end ISX
+
+def driveIS (args : List String) : String :=
+  match args with
+  | [kind, ops] =>
+    let o := argVal ops "ops"
+    ISX.runScript (argVal kind "kind") (if o.isEmpty then [] else o.splitOn ";")
+  | _ => "bad-op"
+
 def dispatch (line : String) : String :=
   match (line.splitOn " ").filter (· ≠ "") with
   | "C14" :: rest => driveC14 rest
@@ -435,6 +534,7 @@ def dispatch (line : String) : String :=
   | "C19" :: rest => driveC19 rest
   | "C10" :: rest => driveC10 rest
   | "C18" :: rest => driveC18 rest
+  | "IS" :: rest => driveIS rest
   | _ => "bad-op"
 
 partial def loop (h : IO.FS.Stream) (out : IO.FS.Stream) : IO Unit := do
